@@ -61,8 +61,12 @@ def loader_cases(ctx, n):
             pl.DEEP_PLUGINS = []
             cfg = ConfigService(custom_cfg, tracepoints=TracepointConfigService())
             j = dict(candidates=[dict(c) for c in cands])
+            again = None
             try:
                 loaded = pl.load_plugins(cfg, [c["path"] for c in cands])
+                # a second load in the same process with NO custom plugins: only the default list (empty here) is loaded -
+                # what an earlier load was given must not have become part of the defaults
+                again = [p.name for p in pl.load_plugins(cfg, [])]
             except BaseException as e:
                 ctx.fail("load_plugins raised %r: one candidate stopped the others from loading" % (e,), j, tag="loader-raised")
                 continue
@@ -75,6 +79,9 @@ def loader_cases(ctx, n):
             ctx.case(j, nontrivial=len(usable) >= 2 and len(usable) < len(cands), bucket="loader n=%d" % len(cands))
             if got != want:
                 ctx.fail("loaded plugins %r, the usable candidates in declared order are %r" % (got, want), j, tag="loader")
+            if again or pl.DEEP_PLUGINS != []:
+                ctx.fail("a second load without custom plugins loaded %r (the default list is now %r): the custom plugins of the earlier "
+                         "load were kept" % (again, pl.DEEP_PLUGINS), j, kind="history", tag="loader-remembers")
             lits.append("{| ld_cands := %s; ld_obs := %s |}" % (
                 L.lst("{| cd_id := %s; cd_imports := %s; cd_constructs := %s; cd_active := %s; cd_order := %s |}" % (
                     L.nat(c["id"]), L.b(c["kind"] not in ("no_module", "no_class")), L.b(c["kind"] not in ("ctor_raises", "did_not_enable")),
@@ -185,6 +192,11 @@ def isolation(ctx, n):
             plugins.append(mp)
         for i in range(ndeco):
             plugins.append(Deco(i, bad_deco[i], world.log))
+        # a faulty plugin may also be an object that cannot be hashed (a dataclass-style plugin: __eq__ without __hash__)
+        for pobj, bad in list(zip(plugins[:nspan], [a or b for a, b in zip(bad_span_create, bad_span_close)])) + \
+                list(zip(plugins[nspan:nspan + nmet], bad_met)) + list(zip(plugins[nspan + nmet:], bad_deco)):
+            if bad and rng.random() < 0.5:
+                pobj.__class__ = type("Unhashable" + type(pobj).__name__, (type(pobj),), {"__hash__": None, "__eq__": lambda a, b: a is b})
         lg = RecLogger(world.log)
         if bad_logger:
             def log_tracepoint(*a, **kw):
